@@ -60,6 +60,7 @@ def order_groups(rng):
 def cases(tier, rng):
     thorough = tier == "thorough"
     per = 60 if thorough else 14
+    again = []       # scenarios that run inside the driver process itself: repeated at the end, after a different history
     for modname, cmds in TAKE.items():
         try:
             mod = importlib.import_module(f"vlib.props.{modname}")
@@ -69,6 +70,7 @@ def cases(tier, rng):
             log(f"C18: generator of {modname} unavailable: {e}"); lines = []
         for line in rng.sample(lines, min(per, len(lines))):
             yield Case(line, tag="scenario-" + line.lstrip("!").split(" ", 1)[0])
+            if not line.startswith("!"): again.append(line)
     # parsed values of a record depend on that record's bytes only: frames that store one / none of the two optional byte pairs,
     # each preceded by a frame that stores both with non-zero bytes (a value left unassigned shows as the neighbour's or as garbage)
     from . import prtref as P
@@ -86,6 +88,13 @@ def cases(tier, rng):
     for b in (0, 171, 255): yield Case(f"prt.default {b}", tag="default-object")
     for gid, line in order_groups(rng):
         yield Case(line, tag="order-and-spelling:" + gid)
+    # the same logical input, after the process has done other work (the cases of one run are spread over several driver
+    # processes in strided chunks, so a repeated line meets a different history): static buffers, caches and the like must not show
+    # a wide picture of non-zero pixels first, then narrower ones whose rows need padding
+    wide = "bmp.create 3 8 64 3 " + "00000000" * 256 + " " + "d5" * (64 * 3)
+    for k, line in enumerate(again[::-1]):
+        if k % 5 == 0: yield Case(wide, tag="history-filler", nomodel=False)
+        yield Case(line, tag="repeat-after-history")
 
 def relational_oracles(cases_, impl):
     # (1) records built over different poison must be byte-identical
@@ -104,6 +113,12 @@ def relational_oracles(cases_, impl):
         if c.tag in first and first[c.tag][0] != m.group(1):
             yield c, a, f"the same files listed in another order / spelled differently give different archive bytes: {m.group(1)} vs {first[c.tag][0]} ({first[c.tag][1][:120]})"
         first.setdefault(c.tag, (m.group(1), c.line))
+    # (2b) the same line gives the same output whatever the process did before
+    seen = {}
+    for c, a in zip(cases_, impl):
+        if c.line in seen and seen[c.line][1] != a and not c.tag.startswith("order-and-spelling:"):
+            yield c, a, f"the same input gave {a[:140]!r} here and {seen[c.line][1][:140]!r} earlier in the run: the output depends on what the process did before"
+        seen.setdefault(c.line, (c, a))
     # (3) the same scenarios in processes whose fresh heap and stack memory hold different garbage
     lines = [c.line for c in cases_]
     for name, flags, asan in VARIANTS:
